@@ -557,7 +557,8 @@ def check_c24(tier, seed):
         if e.get('seg_multi_segment_pictures'): ck.ev.probe('multi_segment_picture', e['seg_multi_segment_pictures'])
     if tier != 'quick': ck.ev.extra['exhaustive_over'] = 'all picture sizes 1..65 x 1..34 SBs x 4 representative segment grids (one schedule each) + 3000 random (size, grid, workers, schedule)'
     enc = [mk(ck, {'logical_processors': lp, 'enc_mode': 8, 'tile_columns': tc}, {'kind': 'mix', 'seed': rng.randint(1, 99)}, rng.randint(3, 6), wh, sim=gen.schedule(rng, allow_buggify=False), machine={'cores': lp, 'sockets': 1}, oracles={'decode': 0, 'parse': 0})
-           for (lp, tc, wh) in ([(4, 0, (256, 192)), (8, 1, (320, 256)), (16, 0, (384, 256))] if tier == 'quick' else [(rng.choice([2, 4, 8, 16, 32]), rng.choice([0, 0, 1]), (rng.choice([192, 256, 320, 448]), rng.choice([128, 192, 256]))) for _ in range(40)])]
+           for (lp, tc, wh) in ([(4, 0, (256, 192)), (8, 1, (320, 256)), (16, 0, (384, 256)), (2, 0, (352, 288)), (3, 0, (416, 240)), (4, 0, (336, 272)), (2, 0, (208, 144)), (3, 0, (464, 272))]
+                                + [(rng.choice([2, 3, 4, 6, 8]), rng.choice([0, 0, 1]), (rng.choice([128, 192, 208, 256, 320, 336, 352, 416, 448, 464]), rng.choice([128, 144, 192, 240, 256, 272, 288]))) for _ in range(4 if tier == 'quick' else 60)])]
     rs = pmap(lambda c: run_case(c, 'plain'), enc, variant='plain')
     for c, r in zip(enc, rs):
         ck.ev.add_run(c, r, _default_key(c, r)); e = r.get('events') or {}
